@@ -648,6 +648,37 @@ class E(cohdl.Entity):
 _DYN_PORTS2 = "A:lane_in_0 A:lane_out_0 A:lane_in_1 A:lane_out_1"
 _DYN_PORTS3 = _DYN_PORTS2 + " A:lane_in_2 A:lane_out_2"
 
+A_ENUM = '''
+import cohdl
+from cohdl import std, Bit, Port, Signal, enum
+
+class Phase(enum.Enum):
+    idle = enum.auto()
+    run = enum.auto()
+
+class E(cohdl.Entity):
+    clk = Port.input(Bit)
+    go = Port.input(Bit)
+    active = Port.output(Bit, default=False)
+
+    def architecture(self):
+        phase = Signal[Phase](Phase.idle, name="phase")
+
+        @std.sequential(std.Clock(self.clk))
+        def proc():
+            if self.go:
+                phase.next = Phase.run
+                self.active <<= True
+            else:
+                phase.next = Phase.idle
+                self.active <<= False
+'''
+
+# names given to the compiler option `additional_reserved_names` by the option steps `name#res`: names that OTHER pool
+# designs use for ports, signals, processes, entities, enumerators
+RESERVED_OPTION = ["o", "a", "b", "clk", "sig", "foo", "s", "proc", "logic", "mem", "idx", "stage", "inner", "E", "SubA",
+                   "x", "idle", "run", "phase", "q", "d", "p", "dbg", "active", "go"]
+
 def _front(arch, trace):
     return f"<conv <arch:E {arch} > <blk {trace} > >"
 
@@ -667,6 +698,7 @@ POOL = {
     "a_libs": (A_LIBS, "ok", None, "<conv <arch:E <arch:SubA > <arch:SubB > <arch:SubC > > <blk <blk > <blk > <blk > > > " + IR.format("O:9") + " L:11,12,13"),
     "a_inline": (A_INLINE, "ok", None, "<conv <arch:E > <blk <apply <arch:Inv > > > <blk <blk > > > " + IR.format("O:10")),
     "a_waitfor": (A_WAITFOR, "ok", None, _front("F:11", "<ctx:2 U <apply > >") + " " + IR.format("<sm O:11 >")),
+    "a_enum": (A_ENUM, "ok", None, _front("F:14", SEQ.format(0)) + " " + IR.format("O:19") + " <scope D:idle D:run D:phase >"),
     "a_types": (A_TYPES, "ok", None, _front("T:8 T:5 T:9 T:7 T:2", SEQ.format(0)) + " " + IR.format("O:12")),
     "dyn": (DYN, "ok", None, _front(_DYN_PORTS2 + " F:13", SEQ.format(0)) + " " + IR.format("O:13")),
     "dyn@LANES=3": (DYN, "ok", None, _front(_DYN_PORTS3 + " F:13", SEQ.format(0)) + " " + IR.format("O:13")),
@@ -699,3 +731,22 @@ POOL = {
     "r_usage_input": (R_USAGE_INPUT, "reject", "usage", _front("F:1", "<apply >") + " " + IR.format("") + " !"),
     "r_usage_var": (R_BACKEND, "reject", "usage", _front("F:1", "<apply >") + " " + IR.format("") + " !"),
 }
+
+
+# ---------------------------------------------------------------------------------------------------
+# option steps: `name#opt` = the same design compiled through another entry point / with other compiler options
+#   res  std.VhdlCompiler.to_string(E, additional_reserved_names=RESERVED_OPTION)
+#   lib  str(std.VhdlCompiler.to_vhdl_library(E).write())        ir   std.VhdlCompiler.to_ir(E)
+#   dir  std.VhdlCompiler.to_dir(E, <tmp>, mkdir=True) (file contents)
+#   tb0 / tb1  cohdl.use_pretty_traceback(False / True) BEFORE the compilation (a setting that persists)
+# the model script of an option step = script of the design (+ the module scope with the option's names for `res`)
+# ---------------------------------------------------------------------------------------------------
+OPTION_STEPS = ["a_comb#res", "a_pfx_trace#res", "a_sub#res", "a_enum#res", "r_trace_seq#res", "r_usage_drivers#res",
+                "a_seq#ir", "a_coro#ir", "r_ir_continue#ir", "a_sub#dir", "a_coro#lib", "a_comb#tb0", "r_trace_call#tb0",
+                "a_seq#tb1"]
+for _n in OPTION_STEPS:
+    _b, _o = _n.split("#")
+    _src, _exp, _ph, _scr = POOL[_b]
+    if _o == "res" and _exp == "ok":
+        _scr = _scr.replace(" <scope ", " <scope:R ") if " <scope " in _scr else _scr + " <scope:R >"
+    POOL[_n] = (_src, _exp, _ph, _scr)
